@@ -238,7 +238,7 @@ class StringRecognizer(Recognizer):
     def __call__(self, in_str, pos):
         if self.ignore_case:
             if in_str[pos : pos + len(self.value)].lower() == self.value_cmp:
-                return self.value
+                return in_str[pos : pos + len(self.value)]
         else:
             if in_str[pos : pos + len(self.value)] == self.value_cmp:
                 return self.value
